@@ -244,11 +244,11 @@ theorem snapGetattr_abs (env : Env) (e : Ent) (r : Rec) (a : String) :
     absOut (snapGetattr (mkSnap e r) a) =
       (match viewOf e (absRec r) a with
        | some v => SOut.attr v
-       | none => if STATE_CALLABLE_ATTRS.contains a then SOut.callable else SOut.exc "AttributeError") := by
+       | none => if methodAttr a then SOut.callable else SOut.exc "AttributeError") := by
   unfold snapGetattr
   rw [mkSnap_view]
   cases viewOf e (absRec r) a
-  · by_cases h : STATE_CALLABLE_ATTRS.contains a = true
+  · by_cases h : methodAttr a = true
     · simp only [h, if_true, absOut]
     · simp only [h, Bool.false_eq_true, if_false, absOut]
   · simp [absOut]
@@ -422,7 +422,7 @@ theorem stateGet_two_ne_evalName (env : Env) (st : Store) (d n : String) : state
 theorem snapGetattr_ne_evalName (s : Snap) (a : String) : snapGetattr s a ≠ .evalName := by
   unfold snapGetattr
   cases aget a s.dict
-  · by_cases h : a ∈ STATE_CALLABLE_ATTRS <;> simp [h]
+  · by_cases h : methodAttr a = true <;> simp [h]
   · simp
 
 theorem stateGet_three_ne_evalName (env : Env) (st : Store) (d n a : String) :
@@ -602,6 +602,7 @@ theorem step_refines (fx : Fixes) (env : Env) (hs : SimpleEnv env) (hok : EnvOK 
             · right; intro d' n' a' he; simp only [List.cons.injEq, and_true] at he; rw [← he.2.2]; exact h)
           simpa [absState] using this
         · simp [absOut, absState]
+  | aug parts sfx => simp [Conf] at hc
   | delStmt parts =>
     rcases parts with _ | ⟨d, _ | ⟨n, r⟩⟩
     all_goals first | (simp [Conf] at hc; done) | skip
